@@ -1,7 +1,9 @@
 package encrypted_leaseset
 
 import (
+	"crypto"
 	"crypto/ed25519"
+	"crypto/sha512"
 
 	"github.com/go-i2p/common/destination"
 	"github.com/go-i2p/common/key_certificate"
@@ -213,6 +215,18 @@ func validateEncryptedPayload(encryptedInnerData []byte) error {
 //
 // Supports ed25519.PrivateKey, [64]byte, *Ed25519PrivateKey, and 64-byte []byte key types.
 func createSignature(signingKey interface{}, data []byte, sigType uint16) (sig.Signature, error) {
+	// An Ed25519ph (type 8) transient key signs the SHA-512 pre-hash with domain separation
+	// (RFC 8032 section 5.1); a pure Ed25519 signature does not verify under such a key.
+	if sigType == key_certificate.KEYCERT_SIGN_ED25519PH {
+		if raw := ed25519PrivateKeyBytes(signingKey); raw != nil {
+			digest := sha512.Sum512(data)
+			signatureBytes, err := raw.Sign(nil, digest[:], &ed25519.Options{Hash: crypto.SHA512})
+			if err != nil {
+				return sig.Signature{}, oops.Errorf("Ed25519ph signing failed: %w", err)
+			}
+			return sig.NewSignatureFromBytes(signatureBytes, int(sigType))
+		}
+	}
 	switch key := signingKey.(type) {
 	case ed25519.PrivateKey:
 		signatureBytes := ed25519.Sign(key, data)
@@ -240,4 +254,26 @@ func createSignature(signingKey interface{}, data []byte, sigType uint16) (sig.S
 		return sig.Signature{}, oops.Code("unsupported_key_type").
 			Errorf("unsupported signing key type: %T", signingKey)
 	}
+}
+
+// ed25519PrivateKeyBytes returns the 64-byte Ed25519 private key behind any of the key
+// representations createSignature accepts, or nil.
+func ed25519PrivateKeyBytes(signingKey interface{}) ed25519.PrivateKey {
+	var raw []byte
+	switch key := signingKey.(type) {
+	case ed25519.PrivateKey:
+		raw = key
+	case [64]byte:
+		raw = key[:]
+	case *goi2ped25519.Ed25519PrivateKey:
+		if key != nil {
+			raw = key.Bytes()
+		}
+	case []byte:
+		raw = key
+	}
+	if len(raw) != ed25519.PrivateKeySize {
+		return nil
+	}
+	return ed25519.PrivateKey(raw)
 }
